@@ -45,6 +45,55 @@ def _model_dict(m, limit=60):
     return out
 
 
+def _symbols(e, cache):
+    eid = e.get_id()
+    if eid in cache:
+        return cache[eid]
+    out = set()
+    stack = [e]
+    seen = set()
+    while stack:
+        x = stack.pop()
+        xid = x.get_id()
+        if xid in seen:
+            continue
+        seen.add(xid)
+        if z3.is_quantifier(x):
+            stack.append(x.body())
+            continue
+        if z3.is_app(x):
+            d = x.decl()
+            if d.kind() == z3.Z3_OP_UNINTERPRETED:
+                out.add(d.name())
+            stack.extend(x.children())
+    cache[eid] = out
+    return out
+
+
+def _slice(assertions, depth):
+    """Hypotheses in the `depth`-step symbol neighbourhood of the goal (the last assertion).
+    Proving the goal from a subset of the hypotheses is sound."""
+    cache = {}
+    goal = assertions[-1]
+    hyps = assertions[:-1]
+    syms = set(_symbols(goal, cache))
+    chosen = set()
+    for _ in range(depth):
+        added = False
+        for i, h in enumerate(hyps):
+            if i in chosen:
+                continue
+            hs = _symbols(h, cache)
+            if hs & syms:
+                chosen.add(i)
+                added = True
+        for i in chosen:
+            syms |= _symbols(hyps[i], cache)
+        if not added:
+            break
+    return [hyps[i] for i in sorted(chosen)] + [goal]
+
+
 def _solve_one(job):
     idx, text, timeout_ms, tactic = job
     t0 = time.time()
@@ -52,6 +101,18 @@ def _solve_one(job):
         s = z3.Solver()
         s.set("timeout", timeout_ms)
         s.from_string(text)
+        asserts = list(s.assertions())
+        # stage 1: small slices of the path condition first (fast and stable when they suffice)
+        if len(asserts) > 12:
+            for depth in (1, 2):
+                sub = _slice(asserts, depth)
+                if len(sub) >= len(asserts):
+                    break
+                s1 = z3.Solver()
+                s1.set("timeout", min(1000, timeout_ms))
+                s1.add(*sub)
+                if s1.check() == z3.unsat:
+                    return idx, "unsat", None, time.time() - t0, "z3(slice%d)" % depth
         r = s.check()
         if r == z3.unsat:
             return idx, "unsat", None, time.time() - t0, "z3"
